@@ -1,3 +1,1124 @@
 import YgmVerif.Model.DSet
+/-!
+Helper lemmas for the disjoint_set message system: the order `(rank, item)`, ancestors,
+`sameTree`, connectivity in the union graph, and the effect of the primitive state
+transformers (`visit`, `send`, `reparent`, `bump`, `logMerge`, `callback`).
+-/
 namespace YgmVerif.DSet
+
+/-! ### vocabulary -/
+
+def isRoot (s : State) (x : Item) : Prop := parent s x = x
+
+instance (s : State) (x : Item) : Decidable (isRoot s x) := by unfold isRoot; infer_instance
+
+/-- `(rank x, x) <lex (rank y, y)` -/
+def lexLt (s : State) (x y : Item) : Prop := rank s x < rank s y ∨ (rank s x = rank s y ∧ x < y)
+
+/-- `c` is `t` itself, or a non-root strictly below `t` -/
+def Below (s : State) (c t : Item) : Prop := c = t ∨ (¬ isRoot s c ∧ lexLt s c t)
+
+/-- ancestors: reflexive-transitive closure of the parent function -/
+inductive Anc (s : State) : Item → Item → Prop
+  | refl (x : Item) : Anc s x x
+  | step {x a : Item} : Anc s (parent s x) a → Anc s x a
+
+/-- two items have a common ancestor -/
+def sameTree (s : State) (x y : Item) : Prop := ∃ r, Anc s x r ∧ Anc s y r
+
+/-- connected in the (undirected) graph with edge list `E` -/
+inductive Conn (E : List (Item × Item)) : Item → Item → Prop
+  | refl (x : Item) : Conn E x x
+  | edge {a b : Item} : (a, b) ∈ E → Conn E a b
+  | symm {a b : Item} : Conn E a b → Conn E b a
+  | trans {a b c : Item} : Conn E a b → Conn E b c → Conn E a c
+
+/-- an edge list (newest first) in which every edge joins two items not connected by the
+older edges: a forest -/
+def Forest : List (Item × Item) → Prop
+  | [] => True
+  | e :: es => ¬ Conn es e.1 e.2 ∧ Forest es
+
+/-! ### lexLt -/
+
+theorem lexLt_irrefl (s : State) (x : Item) : ¬ lexLt s x x := by
+  unfold lexLt; intro h; rcases h with h | ⟨_, h⟩ <;> omega
+
+theorem lexLt_trans {s : State} {x y z : Item} (h1 : lexLt s x y) (h2 : lexLt s y z) : lexLt s x z := by
+  unfold lexLt at *
+  rcases h1 with h1 | ⟨h1, h1'⟩ <;> rcases h2 with h2 | ⟨h2, h2'⟩
+  · left; omega
+  · left; omega
+  · left; omega
+  · right; exact ⟨by omega, by omega⟩
+
+theorem lexLt_ne {s : State} {x y : Item} (h : lexLt s x y) : x ≠ y := by
+  intro e; subst e; exact lexLt_irrefl s x h
+
+theorem lexLt_asymm {s : State} {x y : Item} (h1 : lexLt s x y) (h2 : lexLt s y x) : False :=
+  lexLt_irrefl s x (lexLt_trans h1 h2)
+
+theorem lexLt_rank_le {s : State} {x y : Item} (h : lexLt s x y) : rank s x ≤ rank s y := by
+  unfold lexLt at h; omega
+
+theorem lexLtB_iff (s : State) (x y : Item) : lexLtB s x y = true ↔ lexLt s x y := by
+  unfold lexLtB lexLt; simp
+
+/-! ### transformers: what they read back -/
+
+@[simp] theorem ent_send (s : State) (m : Msg) : (send s m).ent = s.ent := rfl
+@[simp] theorem dom_send (s : State) (m : Msg) : (send s m).dom = s.dom := rfl
+@[simp] theorem msgs_send (s : State) (m : Msg) : (send s m).msgs = s.msgs ++ [m] := rfl
+@[simp] theorem cbs_send (s : State) (m : Msg) : (send s m).cbs = s.cbs := rfl
+@[simp] theorem mergeLog_send (s : State) (m : Msg) : (send s m).mergeLog = s.mergeLog := rfl
+@[simp] theorem issued_send (s : State) (m : Msg) : (send s m).issued = s.issued := rfl
+@[simp] theorem plain_send (s : State) (m : Msg) : (send s m).plainIssued = s.plainIssued := rfl
+@[simp] theorem aborted_send (s : State) (m : Msg) : (send s m).aborted = s.aborted := rfl
+
+@[simp] theorem ent_visit (s : State) (t : Item) : (visit s t).ent = s.ent := by unfold visit; split <;> rfl
+@[simp] theorem msgs_visit (s : State) (t : Item) : (visit s t).msgs = s.msgs := by unfold visit; split <;> rfl
+@[simp] theorem cbs_visit (s : State) (t : Item) : (visit s t).cbs = s.cbs := by unfold visit; split <;> rfl
+@[simp] theorem mergeLog_visit (s : State) (t : Item) : (visit s t).mergeLog = s.mergeLog := by unfold visit; split <;> rfl
+@[simp] theorem issued_visit (s : State) (t : Item) : (visit s t).issued = s.issued := by unfold visit; split <;> rfl
+@[simp] theorem plain_visit (s : State) (t : Item) : (visit s t).plainIssued = s.plainIssued := by unfold visit; split <;> rfl
+@[simp] theorem aborted_visit (s : State) (t : Item) : (visit s t).aborted = s.aborted := by unfold visit; split <;> rfl
+theorem mem_dom_visit (s : State) (t y : Item) : y ∈ (visit s t).dom ↔ y = t ∨ y ∈ s.dom := by
+  unfold visit; split
+  · constructor
+    · exact Or.inr
+    · rintro (h | h)
+      · subst h; assumption
+      · exact h
+  · simp
+theorem self_mem_dom_visit (s : State) (t : Item) : t ∈ (visit s t).dom := (mem_dom_visit s t t).2 (Or.inl rfl)
+
+@[simp] theorem dom_reparent (s : State) (x z : Item) : (reparent s x z).dom = s.dom := rfl
+@[simp] theorem msgs_reparent (s : State) (x z : Item) : (reparent s x z).msgs = s.msgs := rfl
+@[simp] theorem cbs_reparent (s : State) (x z : Item) : (reparent s x z).cbs = s.cbs := rfl
+@[simp] theorem mergeLog_reparent (s : State) (x z : Item) : (reparent s x z).mergeLog = s.mergeLog := rfl
+@[simp] theorem issued_reparent (s : State) (x z : Item) : (reparent s x z).issued = s.issued := rfl
+@[simp] theorem plain_reparent (s : State) (x z : Item) : (reparent s x z).plainIssued = s.plainIssued := rfl
+@[simp] theorem aborted_reparent (s : State) (x z : Item) : (reparent s x z).aborted = s.aborted := rfl
+@[simp] theorem rank_reparent (s : State) (x z y : Item) : rank (reparent s x z) y = rank s y := by
+  unfold rank reparent; simp only; split
+  · next h => subst h; rfl
+  · rfl
+theorem parent_reparent (s : State) (x z y : Item) :
+    parent (reparent s x z) y = if y = x then z else parent s y := by
+  unfold parent reparent; simp only; split <;> rfl
+
+@[simp] theorem dom_bump (s : State) (p : Item) (r : Int) : (bump s p r).dom = s.dom := rfl
+@[simp] theorem msgs_bump (s : State) (p : Item) (r : Int) : (bump s p r).msgs = s.msgs := rfl
+@[simp] theorem cbs_bump (s : State) (p : Item) (r : Int) : (bump s p r).cbs = s.cbs := rfl
+@[simp] theorem mergeLog_bump (s : State) (p : Item) (r : Int) : (bump s p r).mergeLog = s.mergeLog := rfl
+@[simp] theorem issued_bump (s : State) (p : Item) (r : Int) : (bump s p r).issued = s.issued := rfl
+@[simp] theorem plain_bump (s : State) (p : Item) (r : Int) : (bump s p r).plainIssued = s.plainIssued := rfl
+@[simp] theorem aborted_bump (s : State) (p : Item) (r : Int) : (bump s p r).aborted = s.aborted := rfl
+@[simp] theorem parent_bump (s : State) (p : Item) (r : Int) (y : Item) : parent (bump s p r) y = parent s y := by
+  unfold parent bump; simp only; split
+  · next h => subst h; rfl
+  · rfl
+theorem rank_bump (s : State) (p : Item) (r : Int) (y : Item) :
+    rank (bump s p r) y = if y = p then r else rank s y := by
+  unfold rank bump; simp only; split <;> rfl
+
+@[simp] theorem ent_logMerge (s : State) (ex : Bool) (t op : Item) : (logMerge s ex t op).ent = s.ent := rfl
+@[simp] theorem dom_logMerge (s : State) (ex : Bool) (t op : Item) : (logMerge s ex t op).dom = s.dom := rfl
+@[simp] theorem msgs_logMerge (s : State) (ex : Bool) (t op : Item) : (logMerge s ex t op).msgs = s.msgs := rfl
+@[simp] theorem cbs_logMerge (s : State) (ex : Bool) (t op : Item) : (logMerge s ex t op).cbs = s.cbs := rfl
+@[simp] theorem mergeLog_logMerge (s : State) (ex : Bool) (t op : Item) : (logMerge s ex t op).mergeLog = (ex, t, op) :: s.mergeLog := rfl
+@[simp] theorem issued_logMerge (s : State) (ex : Bool) (t op : Item) : (logMerge s ex t op).issued = s.issued := rfl
+@[simp] theorem plain_logMerge (s : State) (ex : Bool) (t op : Item) : (logMerge s ex t op).plainIssued = s.plainIssued := rfl
+@[simp] theorem aborted_logMerge (s : State) (ex : Bool) (t op : Item) : (logMerge s ex t op).aborted = s.aborted := rfl
+
+@[simp] theorem ent_callback (s : State) (a b : Item) : (callback s a b).ent = s.ent := rfl
+@[simp] theorem dom_callback (s : State) (a b : Item) : (callback s a b).dom = s.dom := rfl
+@[simp] theorem msgs_callback (s : State) (a b : Item) : (callback s a b).msgs = s.msgs := rfl
+@[simp] theorem cbs_callback (s : State) (a b : Item) : (callback s a b).cbs = (a, b) :: s.cbs := rfl
+@[simp] theorem mergeLog_callback (s : State) (a b : Item) : (callback s a b).mergeLog = s.mergeLog := rfl
+@[simp] theorem issued_callback (s : State) (a b : Item) : (callback s a b).issued = s.issued := rfl
+@[simp] theorem plain_callback (s : State) (a b : Item) : (callback s a b).plainIssued = s.plainIssued := rfl
+@[simp] theorem aborted_callback (s : State) (a b : Item) : (callback s a b).aborted = s.aborted := rfl
+
+/-- two states with the same map read the same -/
+theorem rank_of_ent {s s' : State} (h : s'.ent = s.ent) (x : Item) : rank s' x = rank s x := by unfold rank; rw [h]
+theorem parent_of_ent {s s' : State} (h : s'.ent = s.ent) (x : Item) : parent s' x = parent s x := by unfold parent; rw [h]
+
+/-! ### ancestors -/
+
+theorem Anc.trans {s : State} {x y z : Item} (h1 : Anc s x y) (h2 : Anc s y z) : Anc s x z := by
+  induction h1 with
+  | refl _ => exact h2
+  | step _ ih => exact Anc.step (ih h2)
+
+theorem Anc.to_parent (s : State) (x : Item) : Anc s x (parent s x) := Anc.step (Anc.refl _)
+
+theorem Anc.of_root {s : State} {r a : Item} (hr : isRoot s r) (h : Anc s r a) : a = r := by
+  generalize hx : r = x at h
+  induction h with
+  | refl _ => rfl
+  | step _ ih =>
+    subst hx
+    have : parent s r = r := hr
+    rw [this] at ih
+    exact ih rfl
+
+/-- the ancestors of an item form a chain (the parent is a function) -/
+theorem Anc.chain {s : State} {x a b : Item} (h1 : Anc s x a) (h2 : Anc s x b) : Anc s a b ∨ Anc s b a := by
+  induction h1 with
+  | refl _ => exact Or.inl h2
+  | step h ih =>
+    cases h2 with
+    | refl _ => exact Or.inr (Anc.step h)
+    | step h2' => exact ih h2'
+
+/-- ancestor relations only depend on the parent function -/
+theorem Anc.congr {s s' : State} (h : ∀ x, parent s' x = parent s x) {x a : Item} (ha : Anc s x a) : Anc s' x a := by
+  induction ha with
+  | refl _ => exact Anc.refl _
+  | step _ ih => exact Anc.step (by rw [h]; exact ih)
+
+theorem sameTree.refl (s : State) (x : Item) : sameTree s x x := ⟨x, Anc.refl x, Anc.refl x⟩
+theorem sameTree.symm {s : State} {x y : Item} (h : sameTree s x y) : sameTree s y x := by
+  obtain ⟨r, h1, h2⟩ := h; exact ⟨r, h2, h1⟩
+theorem sameTree.trans {s : State} {x y z : Item} (h1 : sameTree s x y) (h2 : sameTree s y z) : sameTree s x z := by
+  obtain ⟨r, hx, hy⟩ := h1
+  obtain ⟨r', hy', hz⟩ := h2
+  rcases Anc.chain hy hy' with h | h
+  · exact ⟨r', hx.trans h, hz⟩
+  · exact ⟨r, hx, hz.trans h⟩
+theorem sameTree.of_anc {s : State} {x a : Item} (h : Anc s x a) : sameTree s x a := ⟨a, h, Anc.refl a⟩
+theorem sameTree.to_parent (s : State) (x : Item) : sameTree s x (parent s x) := sameTree.of_anc (Anc.to_parent s x)
+theorem sameTree.congr {s s' : State} (h : ∀ x, parent s' x = parent s x) {x y : Item} (hs : sameTree s x y) : sameTree s' x y := by
+  obtain ⟨r, h1, h2⟩ := hs; exact ⟨r, h1.congr h, h2.congr h⟩
+
+/-! ### connectivity -/
+
+theorem Conn.mono {E E' : List (Item × Item)} (h : ∀ e, e ∈ E → e ∈ E') {a b : Item} (c : Conn E a b) : Conn E' a b := by
+  induction c with
+  | refl _ => exact Conn.refl _
+  | edge he => exact Conn.edge (h _ he)
+  | symm _ ih => exact Conn.symm ih
+  | trans _ _ ih1 ih2 => exact Conn.trans ih1 ih2
+
+/-- an equivalence relation containing the edges contains connectivity -/
+theorem Conn.rec_equiv {E : List (Item × Item)} (R : Item → Item → Prop)
+    (hr : ∀ x, R x x) (hs : ∀ x y, R x y → R y x) (ht : ∀ x y z, R x y → R y z → R x z)
+    (he : ∀ a b, (a, b) ∈ E → R a b) {a b : Item} (c : Conn E a b) : R a b := by
+  induction c with
+  | refl _ => exact hr _
+  | edge h => exact he _ _ h
+  | symm _ ih => exact hs _ _ ih
+  | trans _ _ ih1 ih2 => exact ht _ _ _ ih1 ih2
+
+/-! ### list helpers -/
+
+theorem filter_length_lt {α : Type} (l : List α) (P Q : α → Bool)
+    (hPQ : ∀ y ∈ l, P y = true → Q y = true) (hex : ∃ y ∈ l, Q y = true ∧ P y = false) :
+    (l.filter P).length < (l.filter Q).length := by
+  induction l with
+  | nil => obtain ⟨y, hy, _⟩ := hex; cases hy
+  | cons a l ih =>
+    have hle : ∀ (l : List α), (∀ y ∈ l, P y = true → Q y = true) → (l.filter P).length ≤ (l.filter Q).length := by
+      intro l
+      induction l with
+      | nil => intro _; simp
+      | cons b l ihl =>
+        intro h
+        have h1 := ihl (fun y hy => h y (List.mem_cons_of_mem _ hy))
+        have h2 := h b (List.mem_cons_self)
+        simp only [List.filter_cons]
+        cases hp : P b <;> cases hq : Q b <;> simp_all <;> omega
+    obtain ⟨y, hy, hq, hp⟩ := hex
+    simp only [List.filter_cons]
+    rcases List.mem_cons.mp hy with rfl | hy'
+    · have := hle l (fun y hy => hPQ y (List.mem_cons_of_mem _ hy))
+      simp [hq, hp]; omega
+    · have := ih (fun y hy => hPQ y (List.mem_cons_of_mem _ hy)) ⟨y, hy', hq, hp⟩
+      have h2 := hPQ a (List.mem_cons_self)
+      cases hpa : P a <;> cases hqa : Q a <;> simp_all <;> omega
+
+theorem mem_of_getElem?_eraseIdx {α : Type} (l : List α) (i : Nat) (m : α) (h : l[i]? = some m) (x : α) :
+    x ∈ l ↔ x = m ∨ x ∈ l.eraseIdx i := by
+  induction l generalizing i with
+  | nil => simp at h
+  | cons a l ih =>
+    cases i with
+    | zero => simp at h; subst h; simp
+    | succ i =>
+      simp at h
+      simp only [List.eraseIdx_cons_succ, List.mem_cons]
+      rw [ih i h]
+      constructor
+      · rintro (h1 | h1 | h1)
+        · exact Or.inr (Or.inl h1)
+        · exact Or.inl h1
+        · exact Or.inr (Or.inr h1)
+      · rintro (h1 | h1 | h1)
+        · exact Or.inr (Or.inl h1)
+        · exact Or.inl h1
+        · exact Or.inr (Or.inr h1)
+
+
+theorem filter_flip {α : Type} [DecidableEq α] (l : List α) (P Q : α → Bool) (t : α) (hnd : l.Nodup) (ht : t ∈ l)
+    (hP : P t = true) (hQ : Q t = false) (hrest : ∀ y, y ≠ t → P y = Q y) :
+    (l.filter Q).length + 1 = (l.filter P).length := by
+  induction l with
+  | nil => cases ht
+  | cons a l ih =>
+    have hnd' := (List.nodup_cons.mp hnd)
+    simp only [List.filter_cons]
+    by_cases hat : a = t
+    · subst hat
+      have : l.filter Q = l.filter P := by
+        apply List.filter_congr
+        intro y hy
+        have : y ≠ a := by intro e; subst e; exact hnd'.1 hy
+        exact (hrest y this).symm
+      simp [hP, hQ, this]
+    · have htl : t ∈ l := by
+        rcases List.mem_cons.mp ht with h | h
+        · exact absurd h.symm hat
+        · exact h
+      have := ih hnd'.2 htl
+      have hpa := hrest a hat
+      cases hq : Q a <;> simp_all <;> omega
+
+/-! ### the invariant -/
+
+/-- what must hold of a message while it is in flight -/
+def MsgOk (s : State) : Msg → Prop
+  | .walk _ t c op oi ork oa ob =>
+      Below s c t ∧ Below s oi op ∧ ork ≤ rank s op ∧ -1 ≤ ork ∧ (0 ≤ ork → op ∈ s.dom)
+      ∧ sameTree s c t ∧ sameTree s oi op
+      ∧ ((sameTree s t oa ∧ sameTree s op ob) ∨ (sameTree s t ob ∧ sameTree s op oa))
+      ∧ (oa, ob) ∈ s.issued
+  | .setp x z => ¬ isRoot s x ∧ lexLt s x z ∧ z ∈ s.dom ∧ sameTree s x z
+  | .resolve p x k => ¬ isRoot s x ∧ rank s x = k ∧ lexLt s x p ∧ sameTree s x p
+
+def isExec : Msg → Prop
+  | .walk ex _ _ _ _ _ _ _ => ex = true
+  | _ => True
+
+/-- the part of the invariant that only talks about the parent map -/
+structure InvA (s : State) : Prop where
+  lex : ∀ x, ¬ isRoot s x → lexLt s x (parent s x)
+  rank_nonneg : ∀ x, 0 ≤ rank s x
+  nondom : ∀ x, x ∉ s.dom → s.ent x = ⟨0, x⟩
+  closed : ∀ x, x ∈ s.dom → parent s x ∈ s.dom
+  nodup : s.dom.Nodup
+
+/-- the invariant; `pend` = messages taken out of `msgs` whose handler is still running -/
+structure InvP (pend : List Msg) (s : State) : Prop where
+  a : InvA s
+  msgs : ∀ m, m ∈ pend ++ s.msgs → MsgOk s m
+  noabort : s.aborted = false
+  sound : ∀ x, Conn s.issued x (parent s x)
+  done : ∀ a b, (a, b) ∈ s.issued →
+    sameTree s a b ∨ ∃ ex t c op oi ork, Msg.walk ex t c op oi ork a b ∈ pend ++ s.msgs
+  count : s.mergeLog.length + numSets s = s.dom.length
+  cbs_eq : s.cbs.length = (s.mergeLog.filter (·.1)).length
+  cbs_tree : ∀ e, e ∈ s.cbs → sameTree s e.1 e.2
+  cbs_issued : ∀ e, e ∈ s.cbs → e ∈ s.issued
+  forest : Forest s.cbs
+  exec : s.plainIssued = 0 → (∀ m, m ∈ pend ++ s.msgs → isExec m) ∧ (∀ e, e ∈ s.mergeLog → e.1 = true)
+
+abbrev Inv (s : State) : Prop := InvP [] s
+
+/-- `s'` extends `s`: ranks grow, non-roots stay non-roots with their rank, nothing is split -/
+structure Ext (s s' : State) : Prop where
+  rank_le : ∀ x, rank s x ≤ rank s' x
+  nonroot : ∀ x, ¬ isRoot s x → ¬ isRoot s' x ∧ rank s' x = rank s x
+  dom : ∀ x, x ∈ s.dom → x ∈ s'.dom
+  tree : ∀ x y, sameTree s x y → sameTree s' x y
+  issued : ∀ e, e ∈ s.issued → e ∈ s'.issued
+
+theorem lexLt.mono {s s' : State} (e : Ext s s') {x y : Item} (hx : ¬ isRoot s x) (h : lexLt s x y) : lexLt s' x y := by
+  have h1 := (e.nonroot x hx).2
+  have h2 := e.rank_le y
+  unfold lexLt at *
+  rcases h with h | ⟨h, h'⟩
+  · left; omega
+  · by_cases hh : rank s' y = rank s y
+    · right; exact ⟨by omega, h'⟩
+    · left; omega
+
+theorem Below.mono {s s' : State} (e : Ext s s') {c t : Item} (h : Below s c t) : Below s' c t := by
+  rcases h with h | ⟨h1, h2⟩
+  · exact Or.inl h
+  · exact Or.inr ⟨(e.nonroot c h1).1, lexLt.mono e h1 h2⟩
+
+theorem MsgOk.mono {s s' : State} (e : Ext s s') {m : Msg} (h : MsgOk s m) : MsgOk s' m := by
+  cases m with
+  | walk ex t c op oi ork oa ob =>
+    obtain ⟨h1, h2, h3, h4, h5, h6, h7, h8, h9⟩ := h
+    refine ⟨h1.mono e, h2.mono e, ?_, h4, fun h => e.dom _ (h5 h), e.tree _ _ h6, e.tree _ _ h7, ?_, e.issued _ h9⟩
+    · have := e.rank_le op; omega
+    · rcases h8 with ⟨a, b⟩ | ⟨a, b⟩
+      · exact Or.inl ⟨e.tree _ _ a, e.tree _ _ b⟩
+      · exact Or.inr ⟨e.tree _ _ a, e.tree _ _ b⟩
+  | setp x z =>
+    obtain ⟨h1, h2, h3, h4⟩ := h
+    exact ⟨(e.nonroot x h1).1, lexLt.mono e h1 h2, e.dom _ h3, e.tree _ _ h4⟩
+  | resolve p x k =>
+    obtain ⟨h1, h2, h3, h4⟩ := h
+    exact ⟨(e.nonroot x h1).1, by rw [(e.nonroot x h1).2]; exact h2, lexLt.mono e h1 h3, e.tree _ _ h4⟩
+
+/-- states that read the same map -/
+theorem Ext.of_ent {s s' : State} (hent : s'.ent = s.ent) (hdom : ∀ x, x ∈ s.dom → x ∈ s'.dom)
+    (hiss : ∀ e, e ∈ s.issued → e ∈ s'.issued) : Ext s s' where
+  rank_le x := by rw [rank_of_ent hent]; exact Int.le_refl _
+  nonroot x h := by unfold isRoot at *; rw [parent_of_ent hent, rank_of_ent hent]; exact ⟨h, rfl⟩
+  dom := hdom
+  tree x y h := h.congr (parent_of_ent hent)
+  issued := hiss
+
+/-! ### ancestors under re-parenting: nothing is ever split -/
+
+theorem anc_lexLe {s : State} (hlex : ∀ x, ¬ isRoot s x → lexLt s x (parent s x)) {w y : Item} (h : Anc s w y) :
+    w = y ∨ lexLt s w y := by
+  induction h with
+  | refl _ => exact Or.inl rfl
+  | @step x a _ ih =>
+    by_cases hr : isRoot s x
+    · have : parent s x = x := hr
+      rw [this] at ih; exact ih
+    · have h1 := hlex x hr
+      rcases ih with ih | ih
+      · right; rw [← ih]; exact h1
+      · right; exact lexLt_trans h1 ih
+
+/-- a path that never meets `x` is not affected by re-parenting `x` -/
+theorem Anc.avoid {s : State} (x z : Item) {w a : Item} (hav : ∀ y, Anc s w y → y ≠ x) (h : Anc s w a) :
+    Anc (reparent s x z) w a := by
+  induction h with
+  | refl _ => exact Anc.refl _
+  | @step u a _ ih =>
+    have hu : u ≠ x := hav u (Anc.refl u)
+    apply Anc.step
+    rw [parent_reparent, if_neg hu]
+    exact ih (fun y hy => hav y (Anc.step hy))
+
+theorem Anc.reparent_root {s : State} {x : Item} (z : Item) (hroot : isRoot s x) {u a : Item} (h : Anc s u a) :
+    Anc (reparent s x z) u a := by
+  induction h with
+  | refl _ => exact Anc.refl _
+  | @step u a _ ih =>
+    by_cases hu : u = x
+    · subst hu
+      have : parent s u = u := hroot
+      rw [this] at ih; exact ih
+    · apply Anc.step
+      rw [parent_reparent, if_neg hu]; exact ih
+
+theorem sameTree.reparent_root {s : State} {x : Item} (z : Item) (hroot : isRoot s x) {u v : Item} (h : sameTree s u v) :
+    sameTree (reparent s x z) u v := by
+  obtain ⟨r, h1, h2⟩ := h
+  exact ⟨r, h1.reparent_root z hroot, h2.reparent_root z hroot⟩
+
+/-- **no-split**: moving a non-root `x` below an item `z` of its own tree that is above it in the
+`(rank, item)` order keeps every pair of items that shared a tree in a common tree -/
+theorem sameTree.reparent_nonroot {s : State} (hlex : ∀ x, ¬ isRoot s x → lexLt s x (parent s x))
+    {x z : Item} (hnr : ¬ isRoot s x) (hlt : lexLt s x z) (hst : sameTree s x z) {u v : Item}
+    (h : sameTree s u v) : sameTree (reparent s x z) u v := by
+  have key : ∀ u a, Anc s u a → sameTree (reparent s x z) u a := by
+    intro u a hua
+    induction hua with
+    | refl _ => exact sameTree.refl _ _
+    | @step u a _ ih =>
+      refine sameTree.trans ?_ ih
+      by_cases hu : u = x
+      · subst hu
+        obtain ⟨r, hxr, hzr⟩ := hst
+        have hzav : ∀ y, Anc s z y → y ≠ u := by
+          intro y hy e
+          subst e
+          rcases anc_lexLe hlex hy with h | h
+          · subst h; exact lexLt_irrefl s _ hlt
+          · exact lexLt_asymm hlt h
+        have hpav : ∀ y, Anc s (parent s u) y → y ≠ u := by
+          intro y hy e
+          subst e
+          have h1 := hlex _ hnr
+          rcases anc_lexLe hlex hy with h | h
+          · rw [h] at h1; exact lexLt_irrefl s _ h1
+          · exact lexLt_asymm h1 h
+        have hpr : Anc s (parent s u) r := by
+          cases hxr with
+          | refl _ => exact absurd rfl (hzav _ hzr)
+          | step h => exact h
+        refine ⟨r, ?_, hpr.avoid u z hpav⟩
+        apply Anc.step
+        rw [parent_reparent, if_pos rfl]
+        exact hzr.avoid u z hzav
+      · have := sameTree.to_parent (reparent s x z) u
+        rw [parent_reparent, if_neg hu] at this
+        exact this
+  obtain ⟨r, h1, h2⟩ := h
+  exact (key u r h1).trans (key v r h2).symm
+
+theorem Ext.on_reparent {s : State} (A : InvA s) {x z : Item} (hlt : lexLt s x z)
+    (h : isRoot s x ∨ (¬ isRoot s x ∧ sameTree s x z)) : Ext s (reparent s x z) where
+  rank_le y := by rw [rank_reparent]; exact Int.le_refl _
+  nonroot y hy := by
+    refine ⟨?_, rank_reparent s x z y⟩
+    unfold isRoot at *
+    rw [parent_reparent]
+    split
+    · next e => subst e; exact (lexLt_ne hlt).symm
+    · exact hy
+  dom y hy := hy
+  tree u v huv := by
+    rcases h with h | ⟨h1, h2⟩
+    · exact huv.reparent_root z h
+    · exact sameTree.reparent_nonroot A.lex h1 hlt h2 huv
+  issued e he := he
+
+theorem Ext.on_bump {s : State} {p : Item} {r : Int} (hroot : isRoot s p) (hle : rank s p ≤ r) : Ext s (bump s p r) where
+  rank_le y := by rw [rank_bump]; split
+                  · next e => subst e; exact hle
+                  · exact Int.le_refl _
+  nonroot y hy := by
+    refine ⟨by unfold isRoot at *; rw [parent_bump]; exact hy, ?_⟩
+    rw [rank_bump, if_neg]
+    intro e; subst e; exact hy hroot
+  dom y hy := hy
+  tree u v huv := huv.congr (parent_bump s p r)
+  issued e he := he
+
+
+theorem Ext.trans {s s' s'' : State} (e1 : Ext s s') (e2 : Ext s' s'') : Ext s s'' where
+  rank_le x := Int.le_trans (e1.rank_le x) (e2.rank_le x)
+  nonroot x hx := by
+    have h1 := e1.nonroot x hx
+    have h2 := e2.nonroot x h1.1
+    exact ⟨h2.1, by rw [h2.2, h1.2]⟩
+  dom x hx := e2.dom x (e1.dom x hx)
+  tree x y h := e2.tree x y (e1.tree x y h)
+  issued x hx := e2.issued x (e1.issued x hx)
+
+/-! ### InvA under the transformers -/
+
+theorem InvA.of_ent {s s' : State} (A : InvA s) (hent : s'.ent = s.ent) (hdom : s'.dom = s.dom) : InvA s' where
+  lex x hx := by
+    unfold isRoot lexLt at *
+    simp only [parent_of_ent hent, rank_of_ent hent] at *
+    exact A.lex x hx
+  rank_nonneg x := by rw [rank_of_ent hent]; exact A.rank_nonneg x
+  nondom x hx := by rw [hent]; exact A.nondom x (by rw [← hdom]; exact hx)
+  closed x hx := by rw [parent_of_ent hent, hdom]; exact A.closed x (by rw [← hdom]; exact hx)
+  nodup := by rw [hdom]; exact A.nodup
+
+theorem InvA.root_of_not_mem {s : State} (A : InvA s) {x : Item} (hx : x ∉ s.dom) : isRoot s x := by
+  unfold isRoot parent; rw [A.nondom x hx]
+
+theorem InvA.mem_of_nonroot {s : State} (A : InvA s) {x : Item} (hx : ¬ isRoot s x) : x ∈ s.dom := by
+  apply Classical.byContradiction; intro h; exact hx (A.root_of_not_mem h)
+
+theorem InvA.on_visit {s : State} (A : InvA s) (t : Item) : InvA (visit s t) := by
+  by_cases ht : t ∈ s.dom
+  · have : DSet.visit s t = s := by unfold DSet.visit; rw [if_pos ht]
+    rw [this]; exact A
+  · have hd : (DSet.visit s t).dom = t :: s.dom := by unfold DSet.visit; rw [if_neg ht]
+    have hent := ent_visit s t
+    refine ⟨?_, ?_, ?_, ?_, ?_⟩
+    · intro x hx
+      unfold isRoot lexLt at *
+      simp only [parent_of_ent hent, rank_of_ent hent] at *
+      exact A.lex x hx
+    · intro x; rw [rank_of_ent hent]; exact A.rank_nonneg x
+    · intro x hx; rw [hent]; apply A.nondom; intro h; apply hx; rw [hd]; exact List.mem_cons_of_mem _ h
+    · intro x hx
+      rw [parent_of_ent hent, hd]
+      rw [hd] at hx
+      rcases List.mem_cons.mp hx with h | h
+      · subst h
+        have : parent s x = x := A.root_of_not_mem ht
+        rw [this]; exact List.mem_cons_self
+      · exact List.mem_cons_of_mem _ (A.closed x h)
+    · rw [hd]; exact List.nodup_cons.mpr ⟨ht, A.nodup⟩
+
+theorem InvA.on_reparent {s : State} (A : InvA s) {x z : Item} (hx : x ∈ s.dom) (hz : z ∈ s.dom) (hlt : lexLt s x z) :
+    InvA (reparent s x z) where
+  lex y hy := by
+    unfold isRoot at hy
+    rw [parent_reparent] at hy ⊢
+    unfold lexLt
+    simp only [rank_reparent]
+    split
+    · next e => subst e; exact hlt
+    · next e => rw [if_neg e] at hy; exact A.lex y hy
+  rank_nonneg y := by rw [rank_reparent]; exact A.rank_nonneg y
+  nondom y hy := by
+    have : y ≠ x := by intro e; subst e; exact hy hx
+    show (if y = x then _ else s.ent y) = _
+    rw [if_neg this]; exact A.nondom y hy
+  closed y hy := by
+    rw [parent_reparent]; split
+    · exact hz
+    · exact A.closed y hy
+  nodup := A.nodup
+
+theorem InvA.on_bump {s : State} (A : InvA s) {p : Item} {r : Int} (hp : p ∈ s.dom) (hroot : isRoot s p)
+    (hle : rank s p ≤ r) : InvA (bump s p r) where
+  lex y hy := by
+    have e := Ext.on_bump hroot hle
+    have hy' : ¬ isRoot s y := by unfold isRoot at *; rw [parent_bump] at hy; exact hy
+    have := lexLt.mono e hy' (A.lex y hy')
+    rw [parent_bump]; exact this
+  rank_nonneg y := by
+    rw [rank_bump]; split
+    · have := A.rank_nonneg p; omega
+    · exact A.rank_nonneg y
+  nondom y hy := by
+    have : y ≠ p := by intro e; subst e; exact hy hp
+    show (if y = p then _ else s.ent y) = _
+    rw [if_neg this]; exact A.nondom y hy
+  closed y hy := by rw [parent_bump]; exact A.closed y hy
+  nodup := A.nodup
+
+/-! ### num_sets under the transformers -/
+
+theorem numSets_congr {s s' : State} (hdom : s'.dom = s.dom)
+    (h : ∀ y, y ∈ s.dom → (parent s' y = y ↔ parent s y = y)) : numSets s' = numSets s := by
+  unfold numSets
+  rw [hdom]
+  congr 1
+  apply List.filter_congr
+  intro y hy
+  have := h y hy
+  by_cases h1 : parent s y = y
+  · simp [h1, this.2 h1]
+  · have h2 : ¬ parent s' y = y := fun h' => h1 (this.1 h')
+    simp [h1, h2]
+
+theorem numSets_reparent_root {s : State} (A : InvA s) {x z : Item} (hx : x ∈ s.dom) (hroot : isRoot s x) (hne : z ≠ x) :
+    numSets (reparent s x z) + 1 = numSets s := by
+  unfold numSets
+  show ((s.dom.filter _).length + 1 = _)
+  apply filter_flip s.dom _ _ x A.nodup hx
+  · have : parent s x = x := hroot
+    simp [this]
+  · rw [parent_reparent, if_pos rfl]; simpa using hne
+  · intro y hy
+    rw [parent_reparent, if_neg hy]
+
+/-! ### sound: trees stay inside components -/
+
+theorem conn_of_anc {s : State} (hs : ∀ x, Conn s.issued x (parent s x)) {x a : Item} (h : Anc s x a) :
+    Conn s.issued x a := by
+  induction h with
+  | refl _ => exact Conn.refl _
+  | step _ ih => exact Conn.trans (hs _) ih
+
+theorem conn_of_sameTree {s : State} (hs : ∀ x, Conn s.issued x (parent s x)) {x y : Item} (h : sameTree s x y) :
+    Conn s.issued x y := by
+  obtain ⟨r, h1, h2⟩ := h
+  exact Conn.trans (conn_of_anc hs h1) (Conn.symm (conn_of_anc hs h2))
+
+theorem not_sameTree_root_above {s : State} (A : InvA s) {t op : Item} (hroot : isRoot s t) (hlt : lexLt s t op) :
+    ¬ sameTree s t op := by
+  rintro ⟨r, h1, h2⟩
+  have hr : r = t := Anc.of_root hroot h1
+  subst hr
+  rcases anc_lexLe A.lex h2 with h | h
+  · subst h; exact lexLt_irrefl s _ hlt
+  · exact lexLt_asymm hlt h
+
+/-! ### the invariant under the transformers -/
+
+theorem InvP.transfer {pend : List Msg} {s s' : State} (h : InvP pend s) (e : Ext s s') (A' : InvA s')
+    (hnew : ∀ m, m ∈ s'.msgs → m ∈ s.msgs ∨ (MsgOk s' m ∧ (s.plainIssued = 0 → isExec m)))
+    (hkeep : ∀ m, m ∈ s.msgs → m ∈ s'.msgs)
+    (hab : s'.aborted = false)
+    (hsound : ∀ x, Conn s'.issued x (parent s' x))
+    (hcount : s'.mergeLog.length + numSets s' = s'.dom.length)
+    (hcbs : s'.cbs = s.cbs) (hlog : s'.mergeLog = s.mergeLog) (hiss : s'.issued = s.issued)
+    (hplain : s'.plainIssued = s.plainIssued) : InvP pend s' where
+  a := A'
+  msgs m hm := by
+    rcases List.mem_append.mp hm with hm | hm
+    · exact (h.msgs m (List.mem_append_left _ hm)).mono e
+    · rcases hnew m hm with h1 | h1
+      · exact (h.msgs m (List.mem_append_right _ h1)).mono e
+      · exact h1.1
+  noabort := hab
+  sound := hsound
+  done a b hab' := by
+    rw [hiss] at hab'
+    rcases h.done a b hab' with h1 | ⟨ex, t, c, op, oi, ork, hm⟩
+    · exact Or.inl (e.tree _ _ h1)
+    · refine Or.inr ⟨ex, t, c, op, oi, ork, ?_⟩
+      rcases List.mem_append.mp hm with hm | hm
+      · exact List.mem_append_left _ hm
+      · exact List.mem_append_right _ (hkeep _ hm)
+  count := hcount
+  cbs_eq := by rw [hcbs, hlog]; exact h.cbs_eq
+  cbs_tree x hx := by rw [hcbs] at hx; exact e.tree _ _ (h.cbs_tree x hx)
+  cbs_issued x hx := by rw [hcbs] at hx; rw [hiss]; exact h.cbs_issued x hx
+  forest := by rw [hcbs]; exact h.forest
+  exec hp := by
+    rw [hplain] at hp
+    obtain ⟨h1, h2⟩ := h.exec hp
+    refine ⟨?_, by rw [hlog]; exact h2⟩
+    intro m hm
+    rcases List.mem_append.mp hm with hm | hm
+    · exact h1 m (List.mem_append_left _ hm)
+    · rcases hnew m hm with h3 | h3
+      · exact h1 m (List.mem_append_right _ h3)
+      · exact h3.2 hp
+
+theorem InvP.on_visit {pend : List Msg} {s : State} (h : InvP pend s) (t : Item) : InvP pend (visit s t) := by
+  have hent := ent_visit s t
+  refine h.transfer (Ext.of_ent hent (fun x hx => (mem_dom_visit s t x).2 (Or.inr hx)) (by simp)) (h.a.on_visit t)
+    (fun m hm => Or.inl (by simpa using hm)) (fun m hm => by simpa using hm) (by simp [h.noabort]) ?_ ?_ (by simp) (by simp) (by simp) (by simp)
+  · intro x; rw [parent_of_ent hent, issued_visit]; exact h.sound x
+  · by_cases ht : t ∈ s.dom
+    · have : DSet.visit s t = s := by unfold DSet.visit; rw [if_pos ht]
+      rw [this]; exact h.count
+    · have hroot : parent s t = t := h.a.root_of_not_mem ht
+      have hc := h.count
+      unfold numSets at *
+      unfold DSet.visit
+      rw [if_neg ht]
+      simp only [List.filter_cons]
+      have : (parent { s with dom := t :: s.dom } t = t) := hroot
+      simp only [List.length_cons]
+      have hp : ∀ y, parent { s with dom := t :: s.dom } y = parent s y := fun _ => rfl
+      simp only [hp, hroot, decide_true, if_true, List.length_cons]
+      show s.mergeLog.length + _ = _
+      omega
+
+theorem InvP.on_send {pend : List Msg} {s : State} (h : InvP pend s) {m : Msg} (hm : MsgOk s m)
+    (hx : s.plainIssued = 0 → isExec m) : InvP pend (send s m) := by
+  have e : Ext s (DSet.send s m) := Ext.of_ent rfl (fun _ h => h) (fun _ h => h)
+  refine h.transfer e (h.a.of_ent rfl rfl) ?_ (fun m' hm' => by simp; exact Or.inl hm') h.noabort h.sound h.count rfl rfl rfl rfl
+  intro m' hm'
+  simp only [msgs_send, List.mem_append, List.mem_singleton] at hm'
+  rcases hm' with h1 | h1
+  · exact Or.inl h1
+  · subst h1; exact Or.inr ⟨hm.mono e, hx⟩
+
+theorem InvP.on_reparent_nonroot {pend : List Msg} {s : State} (h : InvP pend s) {x z : Item}
+    (hx : ¬ isRoot s x) (hz : z ∈ s.dom) (hlt : lexLt s x z) (hst : sameTree s x z) :
+    InvP pend (reparent s x z) := by
+  have hxd := h.a.mem_of_nonroot hx
+  have e := Ext.on_reparent h.a hlt (Or.inr ⟨hx, hst⟩)
+  refine h.transfer e (h.a.on_reparent hxd hz hlt) (fun m hm => Or.inl hm) (fun m hm => hm) h.noabort ?_ ?_ rfl rfl rfl rfl
+  · intro y
+    rw [parent_reparent]; split
+    · next e' => subst e'; exact conn_of_sameTree h.sound hst
+    · exact h.sound y
+  · have : numSets (DSet.reparent s x z) = numSets s := by
+      apply numSets_congr (s := s) (s' := DSet.reparent s x z) rfl
+      intro y _
+      rw [parent_reparent]; split
+      · next e' =>
+        subst e'
+        constructor
+        · intro h'; exact absurd h'.symm (lexLt_ne hlt)
+        · intro h'; exact absurd h' hx
+      · exact Iff.rfl
+    show s.mergeLog.length + _ = s.dom.length
+    rw [this]; exact h.count
+
+theorem InvP.on_bump {pend : List Msg} {s : State} (h : InvP pend s) {p : Item} {r : Int} (hp : p ∈ s.dom)
+    (hroot : isRoot s p) (hle : rank s p ≤ r) : InvP pend (bump s p r) := by
+  refine h.transfer (Ext.on_bump hroot hle) (h.a.on_bump hp hroot hle) (fun m hm => Or.inl hm) (fun m hm => hm) h.noabort ?_ ?_ rfl rfl rfl rfl
+  · intro y; rw [parent_bump]; exact h.sound y
+  · have : numSets (DSet.bump s p r) = numSets s := numSets_congr (s := s) (s' := DSet.bump s p r) rfl (fun y _ => by rw [parent_bump])
+    show s.mergeLog.length + _ = s.dom.length
+    rw [this]; exact h.count
+
+
+/-- facts shared by the two kinds of root merge: `t` is a root, it gets the parent `op` -/
+theorem merge_core {pend : List Msg} {s : State} (h : InvP pend s) {t op oa ob : Item}
+    (ht : t ∈ s.dom) (hroot : isRoot s t) (hop : op ∈ s.dom) (hlt : lexLt s t op)
+    (hside : (sameTree s t oa ∧ sameTree s op ob) ∨ (sameTree s t ob ∧ sameTree s op oa))
+    (hiss : (oa, ob) ∈ s.issued) :
+    Ext s (reparent s t op) ∧ InvA (reparent s t op) ∧
+    (∀ x, Conn s.issued x (parent (reparent s t op) x)) ∧
+    numSets (reparent s t op) + 1 = numSets s ∧
+    sameTree (reparent s t op) oa ob ∧ ¬ Conn s.cbs oa ob := by
+  have e := Ext.on_reparent h.a hlt (Or.inl hroot)
+  have hnot := not_sameTree_root_above h.a hroot hlt
+  have hconn : Conn s.issued t op := by
+    rcases hside with ⟨h1, h2⟩ | ⟨h1, h2⟩
+    · exact Conn.trans (conn_of_sameTree h.sound h1) (Conn.trans (Conn.edge hiss) (Conn.symm (conn_of_sameTree h.sound h2)))
+    · exact Conn.trans (conn_of_sameTree h.sound h1) (Conn.trans (Conn.symm (Conn.edge hiss)) (Conn.symm (conn_of_sameTree h.sound h2)))
+  refine ⟨e, h.a.on_reparent ht hop hlt, ?_, numSets_reparent_root h.a ht hroot (lexLt_ne hlt).symm, ?_, ?_⟩
+  · intro y
+    rw [parent_reparent]; split
+    · next e' => subst e'; exact hconn
+    · exact h.sound y
+  · have hto : sameTree (reparent s t op) t op := by
+      have := sameTree.to_parent (reparent s t op) t
+      rw [parent_reparent, if_pos rfl] at this; exact this
+    rcases hside with ⟨h1, h2⟩ | ⟨h1, h2⟩
+    · exact (e.tree _ _ h1).symm.trans (hto.trans (e.tree _ _ h2))
+    · exact ((e.tree _ _ h1).symm.trans (hto.trans (e.tree _ _ h2))).symm
+  · intro hc
+    have hst : sameTree s oa ob :=
+      Conn.rec_equiv (sameTree s) (sameTree.refl s) (fun _ _ h => h.symm) (fun _ _ _ h1 h2 => h1.trans h2)
+        (fun a b hab => h.cbs_tree (a, b) hab) hc
+    rcases hside with ⟨h1, h2⟩ | ⟨h1, h2⟩
+    · exact hnot (h1.trans (hst.trans h2.symm))
+    · exact hnot (h1.trans (hst.symm.trans h2.symm))
+
+theorem InvP.on_merge_plain {pend : List Msg} {s : State} (h : InvP pend s) {t op oa ob : Item}
+    (ht : t ∈ s.dom) (hroot : isRoot s t) (hop : op ∈ s.dom) (hlt : lexLt s t op)
+    (hside : (sameTree s t oa ∧ sameTree s op ob) ∨ (sameTree s t ob ∧ sameTree s op oa))
+    (hiss : (oa, ob) ∈ s.issued) (hex : s.plainIssued ≠ 0) :
+    InvP pend (logMerge (reparent s t op) false t op) ∧ sameTree (logMerge (reparent s t op) false t op) oa ob := by
+  obtain ⟨e1, A1, hs1, hn1, hst1, _⟩ := merge_core h ht hroot hop hlt hside hiss
+  have e2 : Ext (reparent s t op) (logMerge (reparent s t op) false t op) := Ext.of_ent rfl (fun _ h => h) (fun _ h => h)
+  have e := e1.trans e2
+  refine ⟨⟨A1.of_ent rfl rfl, fun m hm => (h.msgs m hm).mono e, h.noabort, hs1, ?_, ?_, ?_, fun x hx => e.tree _ _ (h.cbs_tree x hx),
+    h.cbs_issued, h.forest, fun hp => absurd hp hex⟩, e2.tree _ _ hst1⟩
+  · intro a b hab
+    rcases h.done a b hab with h1 | h1
+    · exact Or.inl (e.tree _ _ h1)
+    · exact Or.inr h1
+  · have hc := h.count
+    show (s.mergeLog.length + 1) + numSets (reparent s t op) = s.dom.length
+    omega
+  · show s.cbs.length = (((false, t, op) :: s.mergeLog).filter (·.1)).length
+    simp only [List.filter_cons]
+    exact h.cbs_eq
+
+theorem InvP.on_merge_exec {pend : List Msg} {s : State} (h : InvP pend s) {t op oa ob : Item}
+    (ht : t ∈ s.dom) (hroot : isRoot s t) (hop : op ∈ s.dom) (hlt : lexLt s t op)
+    (hside : (sameTree s t oa ∧ sameTree s op ob) ∨ (sameTree s t ob ∧ sameTree s op oa))
+    (hiss : (oa, ob) ∈ s.issued) :
+    InvP pend (callback (logMerge (reparent s t op) true t op) oa ob) ∧
+      sameTree (callback (logMerge (reparent s t op) true t op) oa ob) oa ob := by
+  obtain ⟨e1, A1, hs1, hn1, hst1, hnc⟩ := merge_core h ht hroot hop hlt hside hiss
+  have e2 : Ext (reparent s t op) (callback (logMerge (reparent s t op) true t op) oa ob) :=
+    Ext.of_ent rfl (fun _ h => h) (fun _ h => h)
+  have e := e1.trans e2
+  refine ⟨⟨A1.of_ent rfl rfl, fun m hm => (h.msgs m hm).mono e, h.noabort, hs1, ?_, ?_, ?_, ?_, ?_, ⟨hnc, h.forest⟩, ?_⟩, e2.tree _ _ hst1⟩
+  · intro a b hab
+    rcases h.done a b hab with h1 | h1
+    · exact Or.inl (e.tree _ _ h1)
+    · exact Or.inr h1
+  · have hc := h.count
+    show (s.mergeLog.length + 1) + numSets (reparent s t op) = s.dom.length
+    omega
+  · show (s.cbs.length + 1) = (((true, t, op) :: s.mergeLog).filter (·.1)).length
+    simp only [List.filter_cons, if_true, List.length_cons]
+    rw [h.cbs_eq]
+  · intro x hx
+    rcases List.mem_cons.mp hx with hx | hx
+    · subst hx; exact e2.tree _ _ hst1
+    · exact e.tree _ _ (h.cbs_tree x hx)
+  · intro x hx
+    rcases List.mem_cons.mp hx with hx | hx
+    · subst hx; exact hiss
+    · exact h.cbs_issued x hx
+  · intro hp
+    obtain ⟨h1, h2⟩ := h.exec hp
+    refine ⟨h1, ?_⟩
+    intro x hx
+    rcases List.mem_cons.mp hx with hx | hx
+    · subst hx; rfl
+    · exact h2 x hx
+
+theorem InvP.on_issue {s : State} (h : Inv s) (ex : Bool) (a b : Item) : Inv (issue s ex a b) := by
+  have e : Ext s (issue s ex a b) := Ext.of_ent rfl (fun _ h => h) (fun _ h => List.mem_cons_of_mem _ h)
+  have hm : MsgOk (issue s ex a b) (.walk ex a a b b (-1) a b) := by
+    refine ⟨Or.inl rfl, Or.inl rfl, ?_, Int.le_refl _, fun h => absurd h (by omega), sameTree.refl _ _, sameTree.refl _ _,
+      Or.inl ⟨sameTree.refl _ _, sameTree.refl _ _⟩, List.mem_cons_self⟩
+    have := h.a.rank_nonneg b
+    have h2 : rank (issue s ex a b) b = rank s b := rfl
+    omega
+  refine ⟨h.a.of_ent rfl rfl, ?_, h.noabort, fun x => Conn.mono (fun _ h => List.mem_cons_of_mem _ h) (h.sound x), ?_, h.count, h.cbs_eq,
+    fun x hx => e.tree _ _ (h.cbs_tree x hx), fun x hx => List.mem_cons_of_mem _ (h.cbs_issued x hx), h.forest, ?_⟩
+  · intro m hm'
+    have hm'' : m ∈ s.msgs ++ [Msg.walk ex a a b b (-1) a b] := hm'
+    rcases List.mem_append.mp hm'' with h1 | h1
+    · exact (h.msgs m (by simpa using h1)).mono e
+    · rw [List.mem_singleton.mp h1]; exact hm
+  · intro a' b' hab
+    have hab' : (a', b') ∈ (a, b) :: s.issued := hab
+    rcases List.mem_cons.mp hab' with h1 | h1
+    · refine Or.inr ⟨ex, a, a, b, b, -1, ?_⟩
+      have : (a', b') = (a, b) := h1
+      cases this
+      show _ ∈ [] ++ (s.msgs ++ [_])
+      simp
+    · rcases h.done a' b' h1 with h2 | ⟨ex', t, c, op, oi, ork, hw⟩
+      · exact Or.inl (e.tree _ _ h2)
+      · refine Or.inr ⟨ex', t, c, op, oi, ork, ?_⟩
+        show _ ∈ [] ++ (s.msgs ++ [_])
+        have : Msg.walk ex' t c op oi ork a' b' ∈ s.msgs := by simpa using hw
+        simp [this]
+  · intro hp
+    have hp' : (if ex then s.plainIssued else s.plainIssued + 1) = 0 := hp
+    have hex : ex = true ∧ s.plainIssued = 0 := by
+      cases ex
+      · simp at hp'
+      · simpa using hp'
+    obtain ⟨h1, h2⟩ := h.exec hex.2
+    refine ⟨?_, h2⟩
+    intro m hm'
+    have hm'' : m ∈ s.msgs ++ [Msg.walk ex a a b b (-1) a b] := hm'
+    rcases List.mem_append.mp hm'' with h3 | h3
+    · exact h1 m (by simpa using h3)
+    · rw [List.mem_singleton.mp h3]; exact hex.1
+
+/-- the handler of `m` has finished: `m` is no longer needed as a witness -/
+theorem InvP.drop {m : Msg} {s : State} (h : InvP [m] s)
+    (hd : ∀ ex t c op oi ork a b, m = .walk ex t c op oi ork a b →
+      sameTree s a b ∨ ∃ ex t c op oi ork, Msg.walk ex t c op oi ork a b ∈ s.msgs) : Inv s where
+  a := h.a
+  msgs m' hm' := h.msgs m' (List.mem_append_right _ (by simpa using hm'))
+  noabort := h.noabort
+  sound := h.sound
+  done a b hab := by
+    rcases h.done a b hab with h1 | ⟨ex, t, c, op, oi, ork, hw⟩
+    · exact Or.inl h1
+    · rcases List.mem_append.mp hw with h2 | h2
+      · rcases hd ex t c op oi ork a b (List.mem_singleton.mp h2).symm with h3 | ⟨ex', t', c', op', oi', ork', h3⟩
+        · exact Or.inl h3
+        · exact Or.inr ⟨ex', t', c', op', oi', ork', by simpa using h3⟩
+      · exact Or.inr ⟨ex, t, c, op, oi, ork, by simpa using h2⟩
+  count := h.count
+  cbs_eq := h.cbs_eq
+  cbs_tree := h.cbs_tree
+  cbs_issued := h.cbs_issued
+  forest := h.forest
+  exec hp := by
+    obtain ⟨h1, h2⟩ := h.exec hp
+    exact ⟨fun m' hm' => h1 m' (List.mem_append_right _ (by simpa using hm')), h2⟩
+
+/-- taking the `i`-th message out of flight to run its handler -/
+theorem InvP.take {s : State} (h : Inv s) {i : Nat} {m : Msg} (hm : s.msgs[i]? = some m) :
+    InvP [m] { s with msgs := s.msgs.eraseIdx i } := by
+  have e : Ext s { s with msgs := s.msgs.eraseIdx i } := Ext.of_ent rfl (fun _ h => h) (fun _ h => h)
+  have hmem := mem_of_getElem?_eraseIdx s.msgs i m hm
+  have hsub : ∀ m', m' ∈ [m] ++ s.msgs.eraseIdx i → m' ∈ s.msgs := by
+    intro m' hm'
+    apply (hmem m').2
+    simpa using hm'
+  refine ⟨h.a.of_ent rfl rfl, fun m' hm' => (h.msgs m' (by simpa using hsub m' hm')).mono e, h.noabort, h.sound, ?_, h.count, h.cbs_eq,
+    fun x hx => e.tree _ _ (h.cbs_tree x hx), h.cbs_issued, h.forest, ?_⟩
+  · intro a b hab
+    rcases h.done a b hab with h1 | ⟨ex, t, c, op, oi, ork, hw⟩
+    · exact Or.inl (e.tree _ _ h1)
+    · refine Or.inr ⟨ex, t, c, op, oi, ork, ?_⟩
+      have : Msg.walk ex t c op oi ork a b ∈ s.msgs := by simpa using hw
+      have := (hmem _).1 this
+      show _ ∈ [m] ++ s.msgs.eraseIdx i
+      simpa using this
+  · intro hp
+    obtain ⟨h1, h2⟩ := h.exec hp
+    exact ⟨fun m' hm' => h1 m' (by simpa using hsub m' hm'), h2⟩
+
+
+/-! ### the handlers preserve the invariant -/
+
+theorem walkCase_spec (r : Int) (p t op oi : Item) (ork : Int) :
+    match walkCase r p t op oi ork with
+    | .stop => p = op ∨ p = oi
+    | .switch => ¬ (p = op ∨ p = oi) ∧ (r > ork ∨ (r = ork ∧ p = t ∧ ¬ t < op))
+    | .mergeTie => ¬ (p = op ∨ p = oi) ∧ r = ork ∧ p = t ∧ t < op
+    | .climb => ¬ (p = op ∨ p = oi) ∧ r ≤ ork ∧ p ≠ t
+    | .mergeLow => ¬ (p = op ∨ p = oi) ∧ r < ork ∧ p = t := by
+  unfold walkCase
+  split
+  · assumption
+  · split
+    · exact ⟨by assumption, Or.inl (by assumption)⟩
+    · split
+      · split
+        · split
+          · exact ⟨by assumption, by assumption, by assumption, by assumption⟩
+          · exact ⟨by assumption, Or.inr ⟨by assumption, by assumption, by assumption⟩⟩
+        · exact ⟨by assumption, by omega, by assumption⟩
+      · split
+        · exact ⟨by assumption, by omega, by assumption⟩
+        · exact ⟨by assumption, by omega, by assumption⟩
+
+theorem ent_splitChild (s : State) (t c : Item) : (splitChild s t c).ent = s.ent := by
+  unfold splitChild; split <;> rfl
+theorem dom_splitChild (s : State) (t c : Item) : (splitChild s t c).dom = s.dom := by
+  unfold splitChild; split <;> rfl
+
+theorem InvP.on_splitChild {pend : List Msg} {s : State} (h : InvP pend s) {t c : Item} (ht : t ∈ s.dom)
+    (hb : Below s c t) (hst : sameTree s c t) : InvP pend (splitChild s t c) := by
+  unfold splitChild
+  split
+  · next hc =>
+    rcases hb with hb | ⟨hb1, hb2⟩
+    · exact absurd hb hc
+    · apply h.on_send _ (fun _ => trivial)
+      refine ⟨hb1, ?_, h.a.closed t ht, hst.trans (sameTree.to_parent s t)⟩
+      by_cases hr : isRoot s t
+      · have : parent s t = t := hr
+        rw [this]; exact hb2
+      · exact lexLt_trans hb2 (h.a.lex t hr)
+  · exact h
+
+theorem Inv.on_setp {s : State} {x z : Item} (h : InvP [.setp x z] s) : Inv (onSetp s x z) := by
+  unfold onSetp
+  have h1 := h.on_visit x
+  obtain ⟨m1, m2, m3, m4⟩ := h1.msgs (.setp x z) (by simp)
+  exact (h1.on_reparent_nonroot m1 m3 m2 m4).drop (by intro _ _ _ _ _ _ _ _ e; cases e)
+
+theorem Inv.on_resolve {s : State} {p x : Item} {k : Int} (h : InvP [.resolve p x k] s) : Inv (onResolve s p x k) := by
+  unfold onResolve
+  have h1 := h.on_visit p
+  have hp : p ∈ (visit s p).dom := self_mem_dom_visit s p
+  obtain ⟨m1, m2, m3, m4⟩ := h1.msgs (.resolve p x k) (by simp)
+  have hle := lexLt_rank_le m3
+  have hnw : ∀ ex t c op oi ork a b, Msg.resolve p x k = .walk ex t c op oi ork a b → _ := by
+    intro _ _ _ _ _ _ _ _ e; cases e
+  simp only []
+  split
+  · omega
+  · split
+    · exact h1.drop (by intro _ _ _ _ _ _ _ _ e; cases e)
+    · split
+      · next hroot =>
+        unfold increaseRank
+        have hr : rank (visit s p) p = k := by omega
+        rw [if_pos (by omega)]
+        exact (h1.on_bump hp hroot (by omega)).drop (by intro _ _ _ _ _ _ _ _ e; cases e)
+      · next hnr =>
+        have hnr' : ¬ isRoot (visit s p) p := hnr
+        refine (h1.on_send ?_ (fun _ => trivial)).drop (by intro _ _ _ _ _ _ _ _ e; cases e)
+        exact ⟨m1, lexLt_trans m3 (h1.a.lex p hnr'), h1.a.closed p hp, m4.trans (sameTree.to_parent _ p)⟩
+
+theorem Inv.on_walk {s : State} {ex : Bool} {t c op oi : Item} {ork : Int} {oa ob : Item}
+    (h : InvP [.walk ex t c op oi ork oa ob] s) : Inv (onWalk s ex t c op oi ork oa ob) := by
+  unfold onWalk
+  have h0 := h.on_visit t
+  have ht0 : t ∈ (visit s t).dom := self_mem_dom_visit s t
+  obtain ⟨b1, b2, b3, b4, b5, b6, b7, b8, b9⟩ := h0.msgs (.walk ex t c op oi ork oa ob) (by simp)
+  have h1 := h0.on_splitChild ht0 b1 b6
+  -- everything the handler reads is read in `visit s t`; `splitChild` only adds a message
+  have hent := ent_splitChild (visit s t) t c
+  have hdom := dom_splitChild (visit s t) t c
+  generalize hs0 : visit s t = s0 at *
+  generalize hs1 : splitChild s0 t c = s1 at *
+  have hr : ∀ x, rank s1 x = rank s0 x := rank_of_ent hent
+  have hp : ∀ x, parent s1 x = parent s0 x := parent_of_ent hent
+  have ht1 : t ∈ s1.dom := by rw [hdom]; exact ht0
+  obtain ⟨c1, c2, c3, c4, c5, c6, c7, c8, c9⟩ := h1.msgs (.walk ex t c op oi ork oa ob) (by simp)
+  have hexec : s1.plainIssued = 0 → ex = true := fun hz => (h1.exec hz).1 (.walk ex t c op oi ork oa ob) (by simp)
+  have hspec := walkCase_spec (rank s0 t) (parent s0 t) t op oi ork
+  have hnn := h1.a.rank_nonneg t
+  have htp : sameTree s1 t (parent s1 t) := sameTree.to_parent s1 t
+  simp only []
+  rw [← hr t, ← hp t] at hspec ⊢
+  -- `t` relative to its parent, in the form messages need
+  have hbelow : Below s1 t (parent s1 t) := by
+    by_cases hroot : isRoot s1 t
+    · exact Or.inl hroot.symm
+    · exact Or.inr ⟨hroot, h1.a.lex t hroot⟩
+  have hrle : rank s1 t ≤ rank s1 (parent s1 t) := by
+    rcases hbelow with hb | ⟨_, hb⟩
+    · rw [← hb]; exact Int.le_refl _
+    · exact lexLt_rank_le hb
+  cases hcase : walkCase (rank s1 t) (parent s1 t) t op oi ork <;> rw [hcase] at hspec <;> simp only [] at hspec ⊢
+  · -- stop
+    apply h1.drop
+    intro _ _ _ _ _ _ a b e
+    cases e
+    left
+    have hto : sameTree s1 t op := by
+      rcases hspec with hs | hs
+      · rw [← hs]; exact htp
+      · rw [← hs] at c7; exact htp.trans c7
+    rcases c8 with ⟨h1', h2'⟩ | ⟨h1', h2'⟩
+    · exact h1'.symm.trans (hto.trans h2')
+    · exact (h1'.symm.trans (hto.trans h2')).symm
+  · -- switch
+    refine (h1.on_send (m := .walk ex op oi (parent s1 t) t (rank s1 t) oa ob) ?_ hexec).drop ?_
+    · refine ⟨c2, hbelow, hrle, by omega, fun _ => h1.a.closed t ht1, c7, htp, ?_, c9⟩
+      rcases c8 with ⟨h1', h2'⟩ | ⟨h1', h2'⟩
+      · exact Or.inr ⟨h2', htp.symm.trans h1'⟩
+      · exact Or.inl ⟨h2', htp.symm.trans h1'⟩
+    · intro _ _ _ _ _ _ a b e
+      cases e
+      exact Or.inr ⟨ex, op, oi, parent s1 t, t, rank s1 t, by simp⟩
+  · -- mergeTie
+    obtain ⟨hne, hrk, hroot, hlt⟩ := hspec
+    have hroot' : isRoot s1 t := hroot
+    have hlex : lexLt s1 t op := by
+      unfold lexLt
+      by_cases hh : rank s1 t < rank s1 op
+      · exact Or.inl hh
+      · exact Or.inr ⟨by omega, hlt⟩
+    have hop : op ∈ s1.dom := c5 (by omega)
+    cases ex
+    · -- plain: attach, then ask `op` to resolve the ranks
+      have hpl : s1.plainIssued ≠ 0 := fun hz => by have := hexec hz; cases this
+      obtain ⟨h2, hst2⟩ := h1.on_merge_plain ht1 hroot' hop hlex c8 c9 hpl
+      simp only [Bool.false_eq_true, if_false]
+      refine (h2.on_send (m := .resolve op t (rank s1 t)) ?_ (fun _ => trivial)).drop ?_
+      · have hpar : parent (logMerge (reparent s1 t op) false t op) t = op := by
+          show parent (reparent s1 t op) t = op
+          rw [parent_reparent, if_pos rfl]
+        refine ⟨?_, ?_, ?_, ?_⟩
+        · unfold isRoot; rw [hpar]; exact (lexLt_ne hlex).symm
+        · show rank (reparent s1 t op) t = rank s1 t
+          exact rank_reparent s1 t op t
+        · unfold lexLt
+          show rank (reparent s1 t op) t < rank (reparent s1 t op) op ∨ _
+          simp only [rank_reparent]
+          exact hlex
+        · have := sameTree.to_parent (logMerge (reparent s1 t op) false t op) t
+          rw [hpar] at this; exact this
+      · intro _ _ _ _ _ _ a b e
+        cases e
+        left
+        exact (Ext.of_ent (s := logMerge (reparent s1 t op) false t op) rfl (fun _ h => h) (fun _ h => h)).tree _ _ hst2
+    · obtain ⟨h2, hst2⟩ := h1.on_merge_exec ht1 hroot' hop hlex c8 c9
+      simp only [if_true]
+      apply h2.drop
+      intro _ _ _ _ _ _ a b e
+      cases e
+      exact Or.inl hst2
+  · -- climb
+    obtain ⟨hne, hrk, hnr⟩ := hspec
+    refine (h1.on_send (m := .walk ex (parent s1 t) t op oi ork oa ob) ?_ hexec).drop ?_
+    · refine ⟨hbelow, c2, c3, c4, c5, htp, c7, ?_, c9⟩
+      rcases c8 with ⟨h1', h2'⟩ | ⟨h1', h2'⟩
+      · exact Or.inl ⟨htp.symm.trans h1', h2'⟩
+      · exact Or.inr ⟨htp.symm.trans h1', h2'⟩
+    · intro _ _ _ _ _ _ a b e
+      cases e
+      exact Or.inr ⟨ex, parent s1 t, t, op, oi, ork, by simp⟩
+  · -- mergeLow
+    obtain ⟨hne, hrk, hroot⟩ := hspec
+    have hroot' : isRoot s1 t := hroot
+    have hlex : lexLt s1 t op := Or.inl (by omega)
+    have hop : op ∈ s1.dom := c5 (by omega)
+    cases ex
+    · have hpl : s1.plainIssued ≠ 0 := fun hz => by have := hexec hz; cases this
+      obtain ⟨h2, hst2⟩ := h1.on_merge_plain ht1 hroot' hop hlex c8 c9 hpl
+      simp only [Bool.false_eq_true, if_false]
+      apply h2.drop
+      intro _ _ _ _ _ _ a b e
+      cases e
+      exact Or.inl hst2
+    · obtain ⟨h2, hst2⟩ := h1.on_merge_exec ht1 hroot' hop hlex c8 c9
+      simp only [if_true]
+      apply h2.drop
+      intro _ _ _ _ _ _ a b e
+      cases e
+      exact Or.inl hst2
+
+theorem Inv.on_deliver {s : State} (h : Inv s) (i : Nat) : Inv (deliver s i) := by
+  unfold deliver
+  split
+  · exact h
+  · next m hm =>
+    have hp := InvP.take h hm
+    cases m with
+    | walk ex t c op oi ork oa ob => exact Inv.on_walk hp
+    | setp x z => exact Inv.on_setp hp
+    | resolve p x k => exact Inv.on_resolve hp
+
 end YgmVerif.DSet
